@@ -330,6 +330,19 @@ func init() {
 		return r
 	}
 	stubs["bytes.Equal"] = stubs["internal/bytealg.Equal"]
+	// MakeNoZero(n): a byte slice of length and capacity n (zeroed here; callers overwrite it)
+	stubs["internal/bytealg.MakeNoZero"] = func(e *Exec, fn *ssa.Function, a []Value) Value {
+		n := int(e.concretize(a[0].(*Term), 300, "MakeNoZero len"))
+		if n < 0 || n > 1<<26 {
+			panic(unsupported("MakeNoZero: length out of range"))
+		}
+		s := make(Slice, n)
+		z := e.ts.Const(8, 0)
+		for i := range s {
+			s[i] = z
+		}
+		return s
+	}
 	stubs["(*strings.Builder).String"] = func(e *Exec, fn *ssa.Function, a []Value) Value {
 		p := a[0].(*Value)
 		buf := (*p).(Struct)[1].(Slice)
